@@ -78,24 +78,29 @@ def _ins_grid(kind, nlon):
     return _cache[key]
   L = _libs()
   np = L['np']
+  # 'gauss@k': the same nodes on a grid whose first longitude sits k grid steps east of Greenwich
+  # (longitude_offset): node i then is the spec's lattice position (i + k) mod nlon
+  kind, _, off = kind.partition('@')
+  off = int(off or 0)
+  offset = TWO_PI * off / nlon
   if kind == 'poles':
     J = 7
     grid = L['sh'].Grid(longitude_wavenumbers=3, total_wavenumbers=4, longitude_nodes=nlon,
-                        latitude_nodes=J, latitude_spacing='equiangular_with_poles')
+                        latitude_nodes=J, latitude_spacing='equiangular_with_poles', longitude_offset=offset)
     deg = [-90, -60, -30, 0, 30, 60, 90]
     lat1 = np.array([math.radians(d) for d in deg])
     cls = ['sp', 'low', 'low', 'low', 'low', 'low', 'np']
   else:
     J = 6
     grid = L['sh'].Grid(longitude_wavenumbers=3, total_wavenumbers=4, longitude_nodes=nlon,
-                        latitude_nodes=J, latitude_spacing='gauss')
+                        latitude_nodes=J, latitude_spacing='gauss', longitude_offset=offset)
     x, _ = np.polynomial.legendre.leggauss(J)
     lat1 = np.arcsin(np.sort(x))
     cls = ['low' if abs(v) <= math.radians(60) else 'none' for v in lat1]
-  lon1 = np.array([TWO_PI * i / nlon for i in range(nlon)])
+  lon1 = np.array([TWO_PI * (i + off) / nlon for i in range(nlon)])
   lon, lat = np.meshgrid(lon1, lat1, indexing='ij')
   coords = L['cs'].CoordinateSystem(grid, L['sc'].SigmaCoordinates.equidistant(1))
-  _cache[key] = (coords, lon, lat, cls)
+  _cache[key] = (coords, lon, lat, cls, off)
   return _cache[key]
 
 
@@ -131,7 +136,7 @@ def _snapshot(c, h, kind, bad):
   key = ('snap', tuple(c['ref']), h['t'], kind, nlon)
   if key in _cache:
     return _cache[key]
-  coords, lon, lat, lcls = _ins_grid(kind, nlon)
+  coords, lon, lat, lcls, off = _ins_grid(kind, nlon)
   sr = _solar(c['ref'], tick, kind, nlon, False)
   srn = _solar(c['ref'], tick, kind, nlon, True)
   tmin = h['t'] * tick
@@ -190,7 +195,7 @@ def _snapshot(c, h, kind, bad):
       if lc == 'none':
         continue
       for i in range(nlon):
-        k = h['cls'][lc][i]
+        k = h['cls'][lc][(i + off) % nlon]
         if k == 'D' and X[i, j] != 0:
           viol(f'night_not_zero:{nm}:{lc}', f'{nm} = {X[i, j]!r} at lon node {i}, lat '
                f'{math.degrees(lat[i, j]):.2f} where the spec has the sun below the horizon')
@@ -248,7 +253,7 @@ def _ins_one(c):
   def bad(sig, detail):
     out.append({'case': c, 'sig': sig, 'detail': f'{brief}: {detail}'})
 
-  for kind in ('poles', 'gauss'):
+  for kind in ('poles', 'gauss', 'gauss@1', 'poles@3'):
     Fa, ta = _snapshot(c, c['a'], kind, bad)
     Fb, tb = _snapshot(c, c['b'], kind, bad)
     tol = ta + tb
@@ -325,7 +330,7 @@ def _hs_one(c):
 
   hs = make(tref)
   tab = c['tab']
-  cut_err = 8 * EPS / (1 - sb)
+  cut_err = 8 * EPS / (1 - sb) if sb < 1 else 0.0     # sigma_b = 1: the ramp is exactly 0
   # ---- kv
   kv_s = np.array([_f(v) for v in tab['kv']]) * DAY_RATE
   kv = np.asarray(hs.kv(), dtype=np.float64)
